@@ -114,6 +114,7 @@ type Machine struct {
 	unknownBr   int
 	foldMark    int
 	oneShotKind string
+	lastPanicAt string
 	fpSolver    *Solver
 	lastSolver  *Solver
 	thr         *threads
@@ -152,6 +153,7 @@ func (m *Machine) boundFail(format string, args ...interface{}) pathAbort {
 
 // runtimePanic builds the targetPanic for a Go run-time error.
 func (m *Machine) runtimePanic(msg string) targetPanic {
+	m.lastPanicAt = m.where()
 	return targetPanic{iface{t: m.P.runtimeErrorT, v: "runtime error: " + msg}}
 }
 
